@@ -447,6 +447,7 @@ func VerifC24_readRequest() {
 	vrt.Known("C24-ws-before-colon", wsBeforeColon)
 	vrt.Known("C24-invalid-name-byte", badNameByte)
 	vrt.Known("C24-conflicting-content-length", len(te) == 0 && knownCLConflictC24(cl))
+	vrt.Known("C24-te-extra-lines-ignored", knownTEExtraLinesC24(te))
 
 	src := bytes.NewReader(in)
 	br := bfe_bufio.NewReader(src)
